@@ -183,6 +183,14 @@ func (e *Exec) lemmaCall(step LemmaStep, env *Env) {
 // the object invariant that the other units assume "at the interface" is what the constructor hands out.
 func (e *Exec) lemmaEstablish(lname string, step LemmaStep, env *Env) {
 	text := step.Text
+	// "... except label label": labelled preconditions that speak about a collaborator's state rather than the object
+	skip := map[string]bool{}
+	if i := strings.Index(text, ") except "); i > 0 {
+		for _, l := range strings.Fields(text[i+len(") except "):]) {
+			skip[l] = true
+		}
+		text = text[:i+1]
+	}
 	open := strings.LastIndex(text, "(")
 	if open < 0 || !strings.HasSuffix(text, ")") {
 		e.unsupported("%s: establish key(receiver)", step.C.Src)
@@ -216,6 +224,10 @@ func (e *Exec) lemmaEstablish(lname string, step LemmaStep, env *Env) {
 	}
 	n := 0
 	for _, c := range ctr.Requires {
+		if skip[c.Label] {
+			e.P.Trusted["receiver precondition about a collaborator, not established by the constructor: "+key+": ["+c.Label+"] "+c.Text] = true
+			continue
+		}
 		var conj []Expr
 		var split func(x Expr)
 		split = func(x Expr) {
